@@ -106,9 +106,21 @@ def run(seed, args):
             print(f"{r['status']:>20}  {r['name']:<38} {r['property']} expect={r['expect']:<9} "
                   f"got={r.get('got', '-'):<13} {r.get('wall', 0):6.1f}s "
                   f"{' | '.join(r.get('classes', []))[:150]}{r.get('detail', '')[:300]}", flush=True)
+    out_path = os.path.join(boot.VERIF_ROOT, "mutants", "RESULTS.json")
+    if args.only and os.path.exists(out_path):
+        # a partial run updates its own entries and keeps the others
+        try:
+            old = {r["name"]: r for r in json.load(open(out_path))}
+        except Exception:  # noqa: BLE001
+            old = {}
+        old.update({r["name"]: r for r in results})
+        merged = list(old.values())
+    else:
+        merged = list(results)
+    merged.sort(key=lambda r: r["name"])
     results.sort(key=lambda r: r["name"])
-    with open(os.path.join(boot.VERIF_ROOT, "mutants", "RESULTS.json"), "w") as f:
-        json.dump(results, f, indent=1)
+    with open(out_path, "w") as f:
+        json.dump(merged, f, indent=1)
         f.write("\n")
     bad = [r for r in results if r["status"] in ("MISMATCH", "error", "patch-does-not-apply")]
     counted = [r for r in results if r["status"] in ("ok", "MISMATCH")]
